@@ -152,7 +152,7 @@ PROPS = {
         "run_module": "Model.Graph Model.Walk Model.RunC15 Model.RunC02 Model.RunC14 Model.Prune Model.RunC17 Model.Builder Model.RunC01 Model.Jsr Model.RunJsr Model.Decl Model.RunDecl Model.RunJsrAll",
         "run_fn": "run_c01j",
         "pinned_theorems": ["C01_complete", "C01_settled_unfold", "C01_single_entry_step", "C01_recorded_dep", "C01_nothing_pending",
-                            "C01_registry_complete", "C01_registry_settled_unfold", "C01_one_entry_per_text", "C01_static_wins", "C01_declaration_without_extras"],
+                            "C01_registry_complete", "C01_registry_settled_unfold", "C01_one_entry_per_text", "C01_static_wins", "C01_declaration_without_extras", "C01_registry_sound_refuted"],
         "rule": ("proviso worlds of 2-11 modules (JS/TS/JSX/TSX/d.ts/mjs/mts/JSON by extension or content-type header; "
                  "static/named/type-only/dynamic/export-star/export-type/@deno-types/reference types+path/self-types/"
                  "x-typescript-types/JSDoc/import-type imports; json/text/bytes/bogus attributes as a function of the "
@@ -173,6 +173,7 @@ PROPS = {
                  "imports) must equal the model's; what a text resolves to comes from separate real runs on a module importing it alone; every other such case is a WHOLE declaration: random @ts-self-types, triple-slash path/types references, JSX import source (+ types), JSDoc imports and an x-typescript-types header are added to the analysis, and the types dependency plus the dependency map must equal the model's (Decl.declared_full)"),
         "assumptions": [
             "stage B1 + registry stage B2: no npm resolution, no source-phase imports, no source maps, utf-8 sources",
+            "registry stream: the extracted model also judges 'nothing unreachable is present' on the graph of every alias-free world (reachability from the roots over redirects and recorded dependencies); known finding F-C01a (entries orphaned by a content load that fails after the embedded module info was followed) is reported as KNOWN-FINDING",
             "the loader is a function of its arguments",
         ],
         "partial": ["second layer: template arguments of dynamic imports, the source-map dependency and resolver-supplied types (resolve_types, default JSX import source) are not in the declaration model; theorems cover the descriptor fold, the whole declaration is tied by correspondence", "completeness (nothing reachable is absent) is proved for every world, for stage B1 (C01_complete) and for the registry stage (C01_registry_complete, no hypothesis on the world); the converse (nothing unreachable is present) is not yet proved and is checked per case (model = real builder; C15/C02 on the same real graphs)"],
